@@ -188,6 +188,7 @@ func C01(p *load.Prog, r *oblig.Run) {
 
 	r.Rule("R01.e", "the decoder's current family is updated for every decoded family line and never reset, so family-role lines the encoder wrote are accepted wherever they appear", 1)
 	c01Reader(p, r)
+	c01DecodeErrors(p, r)
 	c01Writer(p, r)
 	c01Registry(p, r)
 	c01BOM(p, r)
@@ -196,6 +197,7 @@ func C01(p *load.Prog, r *oblig.Run) {
 	c01TagLookup(p, r)
 	// the decoder half of the round trip: C02's loop rules (R02.*) are obligations of C01 as well
 	c02Rules(p, r)
+	c02ReaderStateless(p, r)
 }
 
 // c01Family: in Decode, the *FamilyNode handed to parseLine is a loop-carried
@@ -364,15 +366,41 @@ func resolveLineGroups(p *load.Prog, parse *ssa.Function, sub *ssa.Call) (lineGr
 		return g, "newNode no longer has parameters tag, value, pointer"
 	}
 	// tag
-	tc, ok := nn.Call.Args[ti].(*ssa.Call)
-	if !ok || tc.Call.StaticCallee() != tagFrom {
-		return g, "tag argument of newNode is not TagFromString(group)"
+	// the tag: TagFromString(group) - on every way the value can come about (a phi of several lookups is a lookup
+	// under a rewritten spelling on one of its edges)
+	tagVals := []ssa.Value{nn.Call.Args[ti]}
+	if ph, isPhi := nn.Call.Args[ti].(*ssa.Phi); isPhi {
+		tagVals = ph.Edges
 	}
-	base, k, ok := su.ElemOf(tc.Call.Args[0])
-	if !ok || base != ssa.Value(sub) {
-		return g, "TagFromString is not applied to a submatch group"
+	var base ssa.Value
+	var k int64
+	var ok bool
+	for _, tv := range tagVals {
+		tc, isCall := tv.(*ssa.Call)
+		if !isCall || tc.Call.StaticCallee() != tagFrom {
+			return g, "tag argument of newNode is not TagFromString(group)"
+		}
+		b0, k0, ok0 := su.ElemOf(tc.Call.Args[0])
+		if !ok0 || b0 != ssa.Value(sub) {
+			if vc, isC := tc.Call.Args[0].(*ssa.Call); isC {
+				for _, a := range vc.Call.Args {
+					if b2, k2, ok2 := su.ElemOf(a); ok2 && b2 == ssa.Value(sub) {
+						name := "a function value"
+						if cal := vc.Call.StaticCallee(); cal != nil {
+							name = cal.String()
+						}
+						return g, fmt.Sprintf("TAG:group %d passes through %s before the tag is looked up", k2, name)
+					}
+				}
+			}
+			return g, "TagFromString is not applied to a submatch group"
+		}
+		if g.tag != 0 && g.tag != int(k0) {
+			return g, "the tag is taken from two different groups"
+		}
+		g.tag = int(k0)
 	}
-	g.tag = int(k)
+	_, _, _ = base, k, ok
 	// value
 	base, k, ok = su.ElemOf(nn.Call.Args[vi])
 	if !ok || base != ssa.Value(sub) {
@@ -575,6 +603,10 @@ func c01Reader(p *load.Prog, r *oblig.Run) {
 		r.Add("R01.a", "level base", p.Pos(parse.Pos()), "the level group is read as a decimal number").Fail("parseLine converts the level group with a base other than 10 (base 0 reads a leading 0 as octal and 0x as hexadecimal): the level pattern admits leading zeros, so '010 TAG' is read as level 8 and '08 TAG' fails to convert and silently becomes level 0 - the line is attached under the wrong parent")
 		return
 	}
+	if strings.HasPrefix(why, "TAG:") {
+		r.Add("R01.a", "line tag", p.Pos(parse.Pos()), "the tag group is looked up as written").Fail("the tag of a line is rewritten before it is looked up (" + strings.TrimPrefix(why, "TAG:") + "): the writer emits tags verbatim, so a node whose tag is another spelling of a registered tag ('note', 'Date') comes back as a different tag and a different node kind")
+		return
+	}
 	if strings.HasPrefix(why, "VALUE:") {
 		r.Add("R01.a", "line value", p.Pos(parse.Pos()), "the value group reaches the node constructor unchanged").Fail("the line value is rewritten while it is read (" + strings.TrimPrefix(why, "VALUE:") + "): the writer emits values verbatim, so a value the rewrite changes does not survive encode/decode")
 		return
@@ -670,6 +702,27 @@ func c01Reader(p *load.Prog, r *oblig.Run) {
 						continue
 					}
 					o.OK("read back as written")
+				}
+			}
+		}
+	}
+	// the separator between the tag and the value is optional in the reader's grammar: a tag that is followed
+	// directly by a byte that is neither a word character nor a space ("1 NAME\tJohn", "2 DATE-1900", a mutated
+	// separator) starts the value at that byte. A pattern that demands the space rejects such streams in strict
+	// mode and, with AllowMultiLine, glues the line onto the previous value (the node is lost).
+	for _, l := range []string{"0", "1", "12"} {
+		for _, t := range []string{"NAME", "_X1"} {
+			for _, v := range []string{"\tJohn", "-1900", "/x/", "\xe9t\xe9"} {
+				line := l + " " + t + v
+				o := r.Add("R01.a", fmt.Sprintf("line %q", line), pos, "tag followed directly by a non-word byte")
+				m := re.FindStringSubmatch(line)
+				switch {
+				case m == nil:
+					o.Fail(fmt.Sprintf("the reader's pattern rejects the line %q: the separator after the tag is optional in the line grammar (the value starts at the first byte that cannot belong to the tag)", line))
+				case m[lg.level] != l || m[lg.tag] != t || m[lg.value] != v:
+					o.Fail(fmt.Sprintf("line %q is read as level=%q tag=%q value=%q", line, m[lg.level], m[lg.tag], m[lg.value]))
+				default:
+					o.OK("value starts right after the tag")
 				}
 			}
 		}
